@@ -82,6 +82,12 @@ func MalformedSig(name string) []byte {
 // Source files named with -clockfiles read the clock through it (time.Now() / time.Since( rewritten mechanically).
 func Now() time.Time {
 	load()
+	if vs, ok := assignment["now.ms"]; ok { // paths that read the clock through UnixMilli: millisecond readings
+		if cursor["now.ms"] >= len(vs) {
+			return time.UnixMilli(int64(vs[len(vs)-1]))
+		}
+		return time.UnixMilli(int64(next("now.ms")))
+	}
 	if vs, ok := assignment["now.mono"]; ok {
 		base := time.Unix(1700000000, 0)
 		if cursor["now.mono"] >= len(vs) { // more readings than the counterexample recorded: the clock stands still
@@ -128,6 +134,24 @@ func Preemptive(on bool) {}
 // Interleave (symbolic build): run w and, after every store w performs to pre-existing objects, also explore r running
 // at that moment. Natively the harness provides its own stress loop; this just runs w then r.
 func Interleave(w, r func()) { w(); r() }
+
+// Hooks: scenario functions that stand in for methods of a node client (see symgo -hookfiles): key "Type.Method".
+var Hooks = map[string]interface{}{}
+
+// Tickers created through NewTicker (time.NewTicker redirected by -clockfiles): they fire only when the harness says so.
+var Tickers []chan time.Time
+
+func NewTicker(d time.Duration) *time.Ticker {
+	ch := make(chan time.Time, 1)
+	Tickers = append(Tickers, ch)
+	return &time.Ticker{C: ch}
+}
+
+// Tick fires the i-th ticker once and lets the woken goroutine run until it blocks again.
+func Tick(i int) {
+	Tickers[i] <- time.Time{}
+	Settle()
+}
 
 func Len(name string, opts ...int) int {
 	load()
